@@ -1,7 +1,43 @@
-From Coq Require Import NArith List.
-From FF Require Import Lib.Word Gen.Consts_device_acpi_aml Aml.Stream Aml.Lex.
+(** Non-vacuity for C12: readers satisfying the hypotheses, and concrete runs of the model. *)
+From Coq Require Import NArith List Lia.
+From FF Require Import Lib.Word Gen.Consts_device_acpi_aml Aml.Stream Aml.Lex Aml.LexProofs Aml.Tree Aml.Parser.
 Import ListNotations.
 Local Open Scope N_scope.
 
-Example C12_pkglen_example : parsePkgLength (init_reader [0x4f; 0x01] 0) = Ok (0x1f, true, mkReader [0x4f; 0x01] 2 2 2).
+Definition ex_reader : reader := fst (setPkgEnd (init_reader [0x5c; 0x2e; 0x41; 0x42; 0x43; 0x44; 0x45; 0x46; 0x47; 0x48; 0xff; 0x99] 0) 10).
+
+Example C12_reader_nonvacuous : reader_wf ex_reader /\ no_wrap ex_reader.
+Proof.
+  unfold reader_wf, no_wrap, ex_reader; cbn. repeat split; try (unfold two32; lia).
+  repeat constructor.
+Qed.
+
+(** a second reader that differs beyond pkgEnd only *)
+Definition ex_reader' : reader := fst (setPkgEnd (init_reader [0x5c; 0x2e; 0x41; 0x42; 0x43; 0x44; 0x45; 0x46; 0x47; 0x48; 0x00; 0x01] 0) 10).
+Example C12_sim_nonvacuous : sim ex_reader ex_reader'.
+Proof.
+  constructor; try reflexivity. intros i Hi. cbn in Hi.
+  unfold byte_at. cbn [r_data ex_reader ex_reader' init_reader setPkgEnd setOffset fst set_pkgEnd_raw set_offset_raw].
+  assert (H : (N.to_nat i < 10)%nat) by lia.
+  generalize dependent (N.to_nat i). intros k Hk.
+  repeat (destruct k as [|k]; [reflexivity|]). lia.
+Qed.
+
+Example C12_name_example :
+  parseNameString ex_reader = Ok (mkSlice (Some 0) 10, true, set_offset_raw ex_reader 10).
+Proof. vm_compute. reflexivity. Qed.
+
+(** the 12-byte table that made relocateNamedObjects recurse without bound (fixed in /repo 648a1d7) is now a parse
+    error of the model, reached within the linear fuel; so is the byte list that extended past the table (984f446) *)
+Example C12_selfreloc_rejected :
+  fst (fst (load [[0x5b; 0x82; 0x0a; 0x2e; 0x41; 0x41; 0x41; 0x41; 0x41; 0x41; 0x41; 0x41]])) = 1.
+Proof. vm_compute. reflexivity. Qed.
+
+Example C12_bytelist_rejected :
+  fst (fst (load [[0x5b; 0x81; 0x0f; 0x41; 0x41; 0x41; 0x41; 0x00; 0x02; 0x11; 0x07; 0x0c; 0xff; 0xff; 0xff; 0x7f; 0x00]])) = 1.
+Proof. vm_compute. reflexivity. Qed.
+
+(** a well-formed table parses (class 0) *)
+Example C12_valid_parses :
+  fst (fst (load [[0x14; 0x0b; 0x4d; 0x54; 0x48; 0x30; 0x02; 0xa4; 0x72; 0x68; 0x69; 0x00; 0x08; 0x58; 0x58; 0x58; 0x58; 0x4d; 0x54; 0x48; 0x30; 0x01; 0x0a; 0x02]])) = 0.
 Proof. vm_compute. reflexivity. Qed.
